@@ -401,6 +401,10 @@ Section Accepts.
   Definition stores_lower (k : kw) : bool :=
     match k with KShape | KDirection | KFont => true | _ => false end.
 
+  (* attributes whose value is a keyword of the language (compared ignoring letter case) *)
+  Definition keyword_valued (k : kw) : bool :=
+    match k with KShape | KDirection | KFont | KFillPattern | KTextTransform => true | _ => false end.
+
   (* value found in the compiled graph / config when accepted *)
   Definition stored (c : ctx) (k : kw) (v : list N) : list N :=
     match k with
